@@ -303,6 +303,119 @@ def erase_operator_iter_mut(s):
     return s[:end] + gen + s[end:], total
 
 
+def outline_iter_variables(s):
+    """X21: `HashMapContext::iter_variables` is `self.variables.iter().map(|(string, value)| BODY)`; the closure body is
+    copied into a free function `hashmap_iter_variables__map(string: &String, value: &Value) -> (String, Value) { BODY }`
+    placed after the impl block (the `map` adapter and the hash-map iterator stay unverified).  Any other shape: no
+    copy (the contract section is lost, C04's listing conjunct is then UNDECIDED)."""
+    m = code_mask(s)
+    try:
+        st, ls, bo, bc = item_span(s, m, r'^impl IterateVariablesContext for HashMapContext \{')
+    except Lost:
+        return s, 0
+    body = s[bo:bc + 1]
+    mb = code_mask(body)
+    mm = re.search(r'fn iter_variables\(&self\) -> Self::VariableIterator<\'_> \{\s*self\s*\.variables\s*\.iter\(\)\s*\.map\(\|\((\w+), (\w+)\)\|\s*', body)
+    if not mm or not mb[mm.start()]:
+        return s, 0
+    k = body.rindex('(', 0, mm.end() - 1)
+    k = body.index('.map(', mm.start()) + 4
+    close = match_close(body, mb, k, '(', ')')
+    rest = body[close + 1:]
+    if not re.match(r'^\s*\}', rest):
+        return s, 0
+    text = body[mm.end():close].rstrip()
+    if not text.startswith('{'):
+        text = '{\n    ' + text + '\n}'
+    gen = '\n\n// [extract] X21 map closure of HashMapContext::iter_variables\npub fn hashmap_iter_variables__map(%s: &String, %s: &Value) -> (String, Value) %s\n' % (mm.group(1), mm.group(2), text)
+    return s[:bc + 1] + gen + s[bc + 1:], 1
+
+
+def split_args(text, mask):
+    """top-level comma split of a macro argument list (code mask aware)"""
+    out, depth, cur = [], 0, 0
+    for i, ch in enumerate(text):
+        if not mask[i]:
+            continue
+        if ch in '([{':
+            depth += 1
+        elif ch in ')]}':
+            depth -= 1
+        elif ch == ',' and depth == 0:
+            out.append(text[cur:i])
+            cur = i + 1
+    out.append(text[cur:])
+    return [a.strip() for a in out if a.strip()]
+
+
+def copy_display_impls(s):
+    """X22: every `impl [fmt::]Display for T { fn fmt(&self, f) -> .. { BODY } }` of the crate is copied into a free
+    function `display_fmt__T(this: &T, f: &mut Formatter) -> Result<(), Error> { BODY' }` placed after the impl, so
+    that Verus can check the body for panics (indexing, slicing, unwrap, arithmetic).  BODY' is BODY with
+      `self` -> `this` (not `self::` paths),
+      `write!(f, FMT, a, b..)` -> `({ let _ = &(a); let _ = &(b); crate::vs::fmt_write(f) })`   (arguments still evaluated),
+      `format!(FMT, a..)`      -> `({ let _ = &(a); ..; crate::vs::fmt_format() })`,
+      `X.fmt(f)`               -> `crate::vs::fmt_nested(&X, f)`.
+    Assumed (preamble): the formatting machinery itself (`Formatter::write_fmt`, Display/Debug of std types and derived
+    Debug) does not panic; a nested Display call does not panic -- for crate types that is the obligation of their own
+    copy.  Termination of recursive formatting is not proved.  The original impls stay unverified."""
+    names = []
+    pos = 0
+    while True:
+        m = code_mask(s)
+        mm = None
+        for cand in re.finditer(r'^impl (?:fmt::)?Display for (\w+) \{', s[pos:], flags=re.M):
+            if m[pos + cand.start()]:
+                mm = cand
+                break
+        if not mm:
+            break
+        ty = mm.group(1)
+        ibo = pos + mm.end() - 1
+        ibc = match_close(s, m, ibo)
+        pos = ibc + 1
+        try:
+            st, ls, bo, bc = fn_span_local(s, m, 'fmt', ibo, ibc)
+        except Lost:
+            continue
+        body = s[bo:bc + 1]
+        # macros first (inner to outer is not needed: no nesting of write!/format! inside each other's arguments here)
+        for mac, tail in (('write', 'crate::vs::fmt_write(f)'), ('format', 'crate::vs::fmt_format()')):
+            while True:
+                mb = code_mask(body)
+                hit = None
+                for cand in re.finditer(r'\b%s!\(' % mac, body):
+                    if mb[cand.start()]:
+                        hit = cand
+                        break
+                if not hit:
+                    break
+                k = hit.end() - 1
+                close = match_close(body, mb, k, '(', ')')
+                inner = body[k + 1:close]
+                args = split_args(inner, mb[k + 1:close])
+                skip = 2 if mac == 'write' else 1          # `f` and the format string / the format string
+                exprs = []
+                for a in args[skip:]:
+                    na = re.match(r'^(\w+)\s*=\s*(?!=)(.*)$', a, flags=re.S)
+                    exprs.append(na.group(2) if na else a)
+                rep = '({ ' + ''.join('let _ = &(%s); ' % e for e in exprs) + tail + ' })'
+                body = body[:hit.start()] + rep + body[close + 1:]
+        body = re.sub(r'(?<![A-Za-z0-9_])((?:\*?[A-Za-z_][A-Za-z0-9_]*)(?:\.[A-Za-z_][A-Za-z0-9_]*)*)\.fmt\(f\)', lambda q: 'crate::vs::fmt_nested(&%s, f)' % q.group(1).lstrip('*'), body)
+        body = re.sub(r'(?<![A-Za-z0-9_:])self(?![A-Za-z0-9_])(?!::)', 'this', body)
+        gen = ('\n\n// [extract] X22 copy of `impl Display for %s` (macros replaced by opaque calls, see tools/extract.py)\n'
+               'pub fn display_fmt__%s(this: &%s, f: &mut core::fmt::Formatter<\'_>) -> Result<(), core::fmt::Error> %s\n' % (ty, ty, ty, body))
+        s = s[:ibc + 1] + gen + s[ibc + 1:]
+        pos = ibc + 1 + len(gen)
+        names.append(ty)
+    return s, names
+
+
+def fn_span_local(s, m, name, lo, hi):
+    from rustscan import fn_span
+    return fn_span(s, m, name, lo, hi)
+
+
 def extract(repo):
     flat = flatten(os.path.join(repo, 'src', 'lib.rs'))
     s, counts = instantiate(flat)
@@ -312,6 +425,10 @@ def extract(repo):
     counts['X19'] = len(fnames)
     s, n20 = erase_operator_iter_mut(s)
     counts['X20'] = n20
+    s, n21 = outline_iter_variables(s)
+    counts['X21'] = n21
+    s, dn = copy_display_impls(s)
+    counts['X22'] = len(dn)
     return s, counts
 
 
